@@ -24,6 +24,8 @@ def run(ctx):
                 opts = {"max_dies": 1, "max_depth": 0}          # empty units
             elif k % 5 == 1:
                 opts = {"max_units": 6, "min_units": 3}
+            if k % 2:
+                opts.update({"dup_attrs": 0.15, "implicit_consts": 0.5, "cu_imports": 0.3})
             desc, path = fs.make(rng, **opts)
             want = dwcorr.oracle_raw(desc)
             recs, crashes = fs.query(path, [dwcorr.RAW_QUERY, "raw unit offset value", "raw unit root offset value",
